@@ -7,6 +7,7 @@
 #include <cstdlib>
 #include <deque>
 #include <functional>
+#include <limits>
 #include <memory>
 #include <set>
 
@@ -262,8 +263,21 @@ int main(int argc, char ** argv)
           if (!d2.empty()) fail("reset-not-fresh", s, d2);
           if (!(G->get_to_all_events() == fresh.get_to_all_events())) fail("reset-not-fresh", s, "get_to_all_events differs from a fresh object");
         }
-        if (!diverged && ops[s[k]].name == "initialize" && it) {
-          // a failed initialisation must leave the object usable: a corrected configuration initialises
+        if (!diverged && ops[s[k]].name == "initialize" && it && !before.init) {
+          // a failed initialisation must leave the object usable: a corrected configuration initialises -
+          // first by just correcting the settings (no reset in between), then after reset()
+          bool bad0 = throws([&] {
+            G->set_decay_category(decay0_generator::DECAY_CATEGORY_DBD);
+            G->set_decay_isotope("Mo100");
+            G->set_decay_dbd_level(0);
+            G->set_decay_dbd_mode(bxdecay0::DBDMODE_1);
+            G->set_decay_dbd_esum_range(std::numeric_limits<double>::quiet_NaN(), std::numeric_limits<double>::quiet_NaN());
+            Tape t2(seed, 5);
+            G->initialize(t2);
+            bxdecay0::event e2;
+            G->shoot(t2, e2);
+          });
+          if (bad0) fail("unusable-after-failed-initialize", s, "after the failed initialize, correcting the settings to Mo100/0/mode 1 (no reset) does not give an initialisable generator");
           G->reset();
           bool bad = throws([&] {
             G->set_decay_category(decay0_generator::DECAY_CATEGORY_DBD);
